@@ -40,9 +40,10 @@ def main(argv=None):
         res = run_property(prop, tier)
         if tier == 'thorough':
             mod = importlib.import_module(f'sa.rules.{prop}')
-            if hasattr(mod, 'liveness'):
-                from .liveness import run_liveness
-                run_liveness(prop, mod, res)
+            from .rules.livecases import CASES
+            from .liveness import run_liveness
+            mod.liveness = lambda: CASES[prop]
+            run_liveness(prop, mod, res)
     except AnalysisError as exc:
         print(f'ANALYSIS-ERROR property={prop} {exc}')
         return 2
